@@ -43,6 +43,13 @@ def _job_inner(args):
         mod = importlib.import_module(modname)
         ob = getattr(mod, clsname)()
         t0 = time.time()
+        if ob.bounded_only:
+            seeds = range(opts.get('seed', 0), opts.get('seed', 0) + opts.get('bounded_seeds', 6))
+            b = oblig.bounded_search(ob, grid, seeds)
+            return dict(oid=ob.oid(grid), status='bounded-fail' if b.get('found') else 'bounded-pass', error=None, module=modname,
+                        cls=clsname, grid=grid, results=[], nleaves=0, cex=None, replay=None, bounded=b, canary=False,
+                        seconds=round(time.time() - t0, 2), wall=round(time.time() - t0, 2), backends={}, functions=[],
+                        bounded_only=True, scope=getattr(ob, 'scope', ''))
         r = oblig.run_symbolic(ob, grid, timeout_ms=opts.get('timeout_ms', 20000))
         r['module'] = modname
         r['cls'] = clsname
